@@ -20,10 +20,85 @@ type obsEv struct {
 	K, Locks, Files uint64
 }
 type recorder struct {
-	mu    sync.Mutex
-	evs   []obsEv
-	mutex [3]*gi.Mutex
-	dir   string
+	mu      sync.Mutex
+	evs     []obsEv
+	mutex   [3]*gi.Mutex
+	dir     string
+	noFiles bool // the program has no with-open-file: nothing to count
+}
+
+var (
+	curDir string
+	dirSeq int
+)
+
+// fileDir returns the directory holding f0, f1, f2 for the next case.
+func fileDir(root string) string {
+	if curDir == "" {
+		dirSeq++
+		curDir = filepath.Join(root, fmt.Sprint(dirSeq))
+		if err := os.Mkdir(curDir, 0o755); err != nil {
+			panic(err)
+		}
+		for i := 0; i < 3; i++ {
+			if err := os.WriteFile(filepath.Join(curDir, fmt.Sprintf("f%d", i)), []byte("x\n"), 0o644); err != nil {
+				panic(err)
+			}
+		}
+	}
+	return curDir
+}
+
+func hasKind(f *Form, k string) bool {
+	if f == nil {
+		return false
+	}
+	if f.K == k {
+		return true
+	}
+	for _, x := range f.A {
+		if hasKind(x, k) {
+			return true
+		}
+	}
+	for _, x := range f.B {
+		if hasKind(x, k) {
+			return true
+		}
+	}
+	if hasKind(f.C, k) {
+		return true
+	}
+	for _, c := range f.Cl {
+		if hasKind(c.Test, k) {
+			return true
+		}
+		for _, x := range c.Body {
+			if hasKind(x, k) {
+				return true
+			}
+		}
+	}
+	for _, it := range f.Items {
+		if hasKind(it.F, k) {
+			return true
+		}
+	}
+	return false
+}
+
+func containsKind(b built, k string) bool {
+	if hasKind(b.main, k) {
+		return true
+	}
+	for _, body := range b.g.defs {
+		for _, f := range body {
+			if hasKind(f, k) {
+				return true
+			}
+		}
+	}
+	return false
 }
 
 var (
@@ -41,6 +116,9 @@ func (r *recorder) probe() (locks, files uint64) {
 		} else {
 			locks |= 1 << uint(i)
 		}
+	}
+	if r.noFiles {
+		return
 	}
 	ents, err := os.ReadDir("/proc/self/fd")
 	if err != nil {
@@ -191,20 +269,13 @@ func runCase(ctx *common.Ctx, id int64, dir string, b built) (term string, desc 
 }
 
 func runCaseOnce(ctx *common.Ctx, id int64, dir string, b built, limit time.Duration) (term string, desc caseDesc, ok, hung bool) {
-	// a directory of its own for every case: a goroutine parked for ever by an earlier case (hang) keeps
-	// its streams open, they must not be counted here
-	dir = filepath.Join(dir, fmt.Sprint(id))
-	if err := os.Mkdir(dir, 0o755); err != nil {
-		panic(err)
-	}
-	for i := 0; i < 3; i++ {
-		if err := os.WriteFile(filepath.Join(dir, fmt.Sprintf("f%d", i)), []byte("x\n"), 0o644); err != nil {
-			panic(err)
-		}
-	}
+	// a goroutine parked for ever by an earlier case (hang) keeps its streams open: they must not be counted
+	// here, so the files live in a directory that is replaced after every run that did not finish
+	dir = fileDir(dir)
 	nm := &namer{fnPrefix: fmt.Sprintf("f%d", id), dir: dir}
 	scope := slip.NewScope()
 	rec := &recorder{dir: dir}
+	rec.noFiles = !containsKind(b, "WithFile")
 	for i := range rec.mutex {
 		m, _ := common.EvalIn(scope, "(make-mutex)").Value.(*gi.Mutex)
 		if m == nil {
@@ -243,6 +314,7 @@ func runCaseOnce(ctx *common.Ctx, id int64, dir string, b built, limit time.Dura
 	case out.Err == "timeout":
 		gres = "MHang"
 		hung = true
+		curDir = "" // whatever this run holds open stays open: next case gets new files
 		// the goroutine is parked on its mutex for ever; what it holds is what the model says a hang holds
 	case out.Err != "":
 		if common.Fault(out.Msg) || out.Err == "go-panic" {
